@@ -144,7 +144,7 @@ func observeCase(c *gen.Case, o obsOpts) vector {
 					}
 					var buf bytes.Buffer
 					jerr, esc := cc.WriteJS(&buf, i, es6, b)
-					k := fmt.Sprintf("%s|es6=%v|cat=%v", f.Name, es6, withCat)
+					k := fmt.Sprintf("%s#%s|es6=%v|cat=%v", f.Name, firstTemplate(f), es6, withCat)
 					switch {
 					case esc != nil:
 						v.JS[k] = "PANIC:" + esc.Value
@@ -158,6 +158,16 @@ func observeCase(c *gen.Case, o obsOpts) vector {
 		}
 	}
 	return v
+}
+
+// firstTemplate names the first template of a file (file names need not be unique in a bundle).
+func firstTemplate(f *ast.SoyFileNode) string {
+	for _, n := range f.Body {
+		if t, ok := n.(*ast.TemplateNode); ok {
+			return t.Name
+		}
+	}
+	return ""
 }
 
 // inSim runs f as a simulation (instrumented builds must not start goroutines outside one).
@@ -279,6 +289,8 @@ func c13Opts() gen.Opts {
 	o.Funcs = []string{"vfail"}
 	o.MsgHeavy = true
 	o.MapLiterals = true
+	o.CaseTwins = true
+	o.SameFileNames = true
 	return o
 }
 
